@@ -40,6 +40,11 @@ class E2EError(Exception):
     """tool failure (never a violation)"""
 
 
+class HeaderShape(E2EError):
+    """the generated header does not have one function declaration per import entry / function / export: an observation about the
+    real output (reported as a disagreement), not a tool failure"""
+
+
 class Translated(object):
     def __init__(self):
         self.ok = False
@@ -73,6 +78,8 @@ class RealResult(object):
         self.child_dumps = {}       # {child k: {'self': dump, 'parent': dump}} right after k was made by NewChild (init_dump=True); filled
                                     # on the CHILD's result; dump = {'mem', 'all_globals', 'table', 'mem_bytes', 'bound'}
         self.child_of = None        # parent instance when this instance was made by NewChild
+        self.mem_exports = {}       # {export ordinal: {'index', 'same_object', 'pages', 'sha256', 'bytes'}}: every exported memory read through its accessor
+        self.reinst_dump = None     # dump of the instance made after <module>FreeInstance + a second <module>Instantiate (reinst)
         self.func_exports = "absent"  # rows of instance.common.funcExports at the end: {'rows': [[func index, name hex]], 'terminated'} | None (NULL)
         self.messages = []
         self.build = []             # command lines
@@ -83,6 +90,9 @@ class RealResult(object):
         d.pop("mem_bytes", None)
         if d.get("init"):
             d["init"] = {k: v for k, v in d["init"].items() if k != "mem_bytes"}
+        d["mem_exports"] = {str(k): {f: v for f, v in x.items() if f != "bytes"} for k, x in self.mem_exports.items()}
+        if d.get("reinst_dump"):
+            d["reinst_dump"] = {k: v for k, v in d["reinst_dump"].items() if k != "mem_bytes"}
         d["child_dumps"] = {str(k): {w: ({f: v for f, v in dd.items() if f != "mem_bytes"} if w != "shared" else dd) for w, dd in x.items()}
                             for k, x in self.child_dumps.items()}
         d["globals"] = {k.hex() if isinstance(k, bytes) else str(k): v for k, v in self.globals.items()}
@@ -184,7 +194,8 @@ def parse_header(text, module, name):
     n_fi = sum(1 for i in module.imports if i.kind == "func")
     exps = [e for e in module.exports if e.kind in ("func", "memory")]
     if len(decls) != n_fi + len(module.funcs) + len(exps):
-        raise E2EError("header declares %d functions, module shape wants %d" % (len(decls), n_fi + len(module.funcs) + len(exps)))
+        raise HeaderShape("the generated header declares %d functions; the module has %d function imports + %d functions + %d function/memory exports "
+                          "(one declaration each)" % (len(decls), n_fi, len(module.funcs), len(exps)))
     h.func_imports = [d[0] for d in decls[:n_fi]]
     h.func_import_decls = [d[1] for d in decls[:n_fi]]
     h.funcs = [d[0] for d in decls[n_fi:n_fi + len(module.funcs)]]
@@ -223,12 +234,14 @@ def show(ty, expr):
     return "f64:%llx", "(unsigned long long)bits_f64(%s)" % expr
 
 
-def gen_main(module, name, header_text, script, imports_spec=None, instances=1, init_dump=False, children=None):
+def gen_main(module, name, header_text, script, imports_spec=None, instances=1, init_dump=False, children=None, reinst=None):
     """C text of the embedder for `script` = [(instance, export name bytes, [(ty, bits)])].
     children = {k: (parent, at)}: instance k is not instantiated at start-up but made by `parent`'s common.newChild (the emitted
     <module>NewChild) right before script entry `at` (at = len(script): after the last call); the resolver gives it the parent's
     imported memories and globals and a table of its own."""
     children = children or {}
+    # reinst = [k]: after the last call instance k is released with <module>FreeInstance and instantiated AGAIN in the same process (its
+    # memories / tables then come out of recycled heap chunks); the new instance is dumped (phase `reinst`)
     h = parse_header(header_text, module, name)
     gl = (imports_spec or {}).get("globals", {})
     storage, alloc, resolve, hosts, funcids, dumps = [], [], [], [], [], []
@@ -312,6 +325,14 @@ def gen_main(module, name, header_text, script, imports_spec=None, instances=1, 
         if kind == "memory" and index == 0:
             acc = cname
             break
+    # every exported memory through its `<module>_<name>` accessor: the object the accessor returns must be the instance's memory of the
+    # EXPORT's index; its page count and bytes are dumped (memories other than 0 are reachable only this way)
+    n_mi_ = len(h.mem_imports)
+    for ordn, (kind, ename, index, cname) in enumerate(h.export_list):
+        if kind != "memory":
+            continue
+        fld = "INST(k).%s" % (h.mem_imports[index][1] if index < n_mi_ else h.mems[index - n_mi_][1])
+        dumps.append("    if (alive[k]) dumpAccessor(k, %d, %d, %s(&INST(k)), %s);" % (ordn, index, cname, fld))
     if mimp or module.mems:
         field = "impmem%d[impOwner[k]]" % mimp[0] if mimp else "INST(k).%s" % h.mems[0][1]
         accok = "(alive[k] ? %s(&INST(k)) == %s : -1)" % (acc, field) if acc else "-1"
@@ -358,6 +379,8 @@ def gen_main(module, name, header_text, script, imports_spec=None, instances=1, 
     for ck in sorted(children):
         if children[ck][1] >= len(script):
             calls.append("  newChild(%d, %d);" % (ck, children[ck][0]))
+    for rk in (reinst or ()):
+        calls.append("  reinstantiate(%d);" % rk)
     t = open(TMPL).read()
     share = ['    OUT("s %%d %d %%d\\n", k, INST(k).%s == INST(parent).%s);' % (len(h.mem_imports) + j, f[1], f[1]) for j, f in enumerate(h.mems)]
     rep = {"@@CHILD_SHARE@@": "\n".join(share), "@@SKIP_CHILD@@": "    if (isChildSlot[k]) { alive[k] = 0; continue; }" if children else "",
@@ -436,7 +459,7 @@ def parse_output(out, module, instances, ncalls, script, rundir, keep_mem=False)
             continue
         if w[0] == "p":
             phase = w[1]
-            if phase in ("child", "prechild"):
+            if phase in ("child", "prechild", "reinst"):
                 child_k = int(w[2])
             continue
         if phase == "child" and w[0] == "s":
@@ -457,7 +480,23 @@ def parse_output(out, module, instances, ncalls, script, rundir, keep_mem=False)
                 dd["mem"] = {"sha256": hashlib.sha256(data).hexdigest(), "pages": int(w[2])}
                 dd["mem_bytes"] = data if keep_mem else None
             continue
-        if phase in ("init", "child", "prechild") and w[0] == "x":
+        if phase in ("init", "child", "prechild", "reinst") and w[0] in ("x", "a"):
+            continue
+        if phase == "reinst" and w[0] in ("b", "g", "t", "m"):
+            dd = rs[child_k].reinst_dump
+            if dd is None:
+                dd = rs[child_k].reinst_dump = {"mem": None, "all_globals": {}, "table": None, "mem_bytes": None, "bound": {}}
+            if w[0] == "g":
+                t, b = w[3].split(":")
+                dd["all_globals"][int(w[2])] = (t, int(b, 16))
+            elif w[0] == "t":
+                dd["table"] = [None if int(x.split(":")[1]) == -1 else int(x.split(":")[1]) for x in w[3:]]
+            elif w[0] == "b":
+                dd["bound"][int(w[2])] = w[3] == "1"
+            else:
+                data = open(os.path.join(rundir, w[4]), "rb").read()
+                dd["mem"] = {"sha256": hashlib.sha256(data).hexdigest(), "pages": int(w[2])}
+                dd["mem_bytes"] = data if keep_mem else None
             continue
         if phase == "init" and w[0] in ("b", "g", "t", "m"):
             if w[0] == "g":
@@ -511,6 +550,11 @@ def parse_output(out, module, instances, ncalls, script, rundir, keep_mem=False)
             r.mem_accessor_ok = {"1": True, "0": False}.get(w[3])
             if keep_mem:
                 r.mem_bytes = data
+        elif w[0] == "a":
+            # a <inst> <export ordinal> <memory index> <accessor == instance field> <pages> <file>
+            data = open(os.path.join(rundir, w[6]), "rb").read()
+            rs[int(w[1])].mem_exports[int(w[2])] = {"index": int(w[3]), "same_object": w[4] == "1", "pages": int(w[5]),
+                                                    "sha256": hashlib.sha256(data).hexdigest(), "bytes": data if keep_mem else None}
         elif w[0] == "x":
             rs[int(w[1])].func_exports = parse_func_exports(w[2:])
         elif w[0] == "done":
@@ -536,7 +580,7 @@ def has_shared_memory(module):
 
 def run_real_multi(repo_copy, workdir, w2c2_exe, module, script, imports_spec=None, instances=1, w2c2_opts=(),
                    cc="gcc", copts=("-O1",), sanitize=False, name="m", timeout=20, keep_mem=False, wasm_bytes=None,
-                   translated=None, keep=False, init_dump=False, children=None):
+                   translated=None, keep=False, init_dump=False, children=None, reinst=None):
     """script = [(instance, export name, [(ty, bits)])].  Returns [RealResult] (one per instance); the
     `results` of instance k are those of its own calls, in order.  children: see gen_main."""
     tr = translated or translate(w2c2_exe, workdir, name, wasm_bytes if wasm_bytes is not None else encode(module), w2c2_opts)
@@ -556,7 +600,10 @@ def run_real_multi(repo_copy, workdir, w2c2_exe, module, script, imports_spec=No
     if "gnu-ld" in tr.cmd and not getattr(tr, "objs", None):
         link_datasegments(tr)
     try:
-        main_text = gen_main(module, tr.name, open(tr.header).read(), script, imports_spec, instances, init_dump, children)
+        try:
+            main_text = gen_main(module, tr.name, open(tr.header).read(), script, imports_spec, instances, init_dump, children, reinst)
+        except HeaderShape as ex:
+            return fail("header_mismatch", str(ex), tr.cmd)
         main_c = os.path.join(tr.dir, "e2e_main_%s.c" % tr.name)
         with open(main_c, "w") as f:
             f.write(main_text)
@@ -566,7 +613,10 @@ def run_real_multi(repo_copy, workdir, w2c2_exe, module, script, imports_spec=No
         if p.returncode != 0:
             errs = [l for l in p.stderr.splitlines() if "error" in l][:4]
             return fail("build_error", " | ".join(errs)[:600] or p.stderr[-400:], cmd)
-        env = dict(os.environ, ASAN_OPTIONS="detect_leaks=0:abort_on_error=0:allocator_may_return_null=1", UBSAN_OPTIONS="print_stacktrace=0")
+        # MALLOC_PERTURB_ (glibc): bytes handed out by malloc / left by free are non-zero, calloc stays zero: state that must be zero /
+        # null after instantiation (table slots, memory bytes, struct fields) but is taken from malloc shows up in the dumps
+        env = dict(os.environ, ASAN_OPTIONS="detect_leaks=0:abort_on_error=0:allocator_may_return_null=1", UBSAN_OPTIONS="print_stacktrace=0",
+                   MALLOC_PERTURB_="165")
         try:
             q = subprocess.run([exe], stdout=subprocess.PIPE, stderr=subprocess.PIPE, cwd=tr.dir, timeout=timeout, env=env)
             out, err, rc = q.stdout.decode("ascii", "replace"), q.stderr.decode("utf-8", "replace"), q.returncode
@@ -658,7 +708,7 @@ def compare(real, v8, what=("instantiate", "results", "host_log", "mem", "global
     vi = v8.instantiate
     if vi[0] in ("invalid", "link", "error"):
         raise E2EError("V8 did not accept the module: %r %r" % (vi, v8.messages[:1]))
-    if real.instantiate[0] in ("w2c2_error", "build_error"):
+    if real.instantiate[0] in ("w2c2_error", "build_error", "header_mismatch"):
         diffs.append({"kind": real.instantiate[0], "call": None, "real": real.instantiate, "v8": vi})
         return diffs, info
     if vi[0] == "trap" and vi[1] in V8_ONLY_TRAPS:
@@ -721,8 +771,25 @@ def const_value(module, expr, imports_spec):
     return expr.imm[0]
 
 
+def canon_func(module):
+    """function index -> the index under which the embedder's observers know that function: an import entry that repeats the
+    (module, field) of an earlier function import IS the earlier host function (one C symbol, one JS function)"""
+    first, out, k = {}, {}, 0
+    for im in module.imports:
+        if im.kind == "func":
+            out[k] = first.setdefault((bytes(im.module), bytes(im.field)), k)
+            k += 1
+    return out
+
+
+def canon_table(module, t):
+    c = canon_func(module)
+    return None if t is None else [c.get(f, f) if f is not None else None for f in t]
+
+
 def expected_table(module, imports_spec):
-    """Table 0 after instantiation per the specification (element segments applied in order)."""
+    """Table 0 after instantiation per the specification (element segments applied in order); function identities as the embedder
+    observes them (canon_func)."""
     tabs = module.all_tables()
     if not tabs:
         return None
@@ -732,7 +799,7 @@ def expected_table(module, imports_spec):
         for k, f in enumerate(seg.funcs):
             if off + k < len(t):
                 t[off + k] = f
-    return t
+    return canon_table(module, t)
 
 
 def expected_memory_after_init(module, imports_spec):
@@ -747,7 +814,7 @@ def expected_memory_after_init(module, imports_spec):
         for off, hx in (mf.get(mimp[0], mf.get(str(mimp[0]))) or []):
             data[int(off):int(off) + len(hx) // 2] = bytes.fromhex(hx)
     for seg in module.datas:
-        if seg.mode == "active":
+        if seg.mode == "active" and (seg.memory or 0) == 0:
             off = const_value(module, seg.offset, imports_spec) & 0xFFFFFFFF
             if off + len(seg.data) <= len(data):
                 data[off:off + len(seg.data)] = seg.data
